@@ -291,7 +291,8 @@ def _rsing_loop_source():
     code = 'def loop(g0, g1c, g20, g2s, g2c, nphi, s, lp, np, r_singularity_vs_varphi, r_singularity_basic_vs_varphi, ' \
            'r_singularity_residual_sqnorm, r_singularity_theta_vs_varphi):\n' + textwrap.indent(body, '    ') + \
            '\n    return dict(K0=K0, K2s=K2s, K2c=K2c, K4s=K4s, K4c=K4c, r=r_singularity_vs_varphi)\n'
-    ns = dict(logger=logging.getLogger('qsc.r_singularity_corr'), warnings=__import__('warnings'))
+    ns = dict(vars(mod))        # helpers the loop may call live next to it in the module
+    ns.update(logger=logging.getLogger('qsc.r_singularity_corr'), warnings=__import__('warnings'))
     exec(compile(code, '<r_singularity loop>', 'exec'), ns)
     return ns['loop']
 
@@ -395,7 +396,12 @@ def corr_rsing(rng, objs, extra=60):
             ok = blk.get('error') == ['1']
             r['distinct'].add('raise')
         else:
-            ok = 'rc' in blk and int(blk['rc'][0]) == bits(expect) and int(blk['inv'][0]) == bits(1 / np.float64(expect))
+            # the branch / root selection must agree; the selected radius itself to a few ulp (the model fixes one association
+            # of the quadratic formula: an equivalent one, e.g. a precomputed reciprocal of 2A, moves the last bits)
+            def near(bits_, val):
+                m_ = unbits(bits_)
+                return int(bits_) == bits(val) or (np.isfinite(m_) and np.isfinite(val) and abs(m_ - val) <= 4e-15 * abs(val))
+            ok = 'rc' in blk and near(blk['rc'][0], expect) and near(blk['inv'][0], 1 / np.float64(expect))
             r['distinct'].add(('sentinel' if expect == 1e100 else 'root', int(np.sum(np.abs(rt.imag) <= 1e-7))))
         if not ok:
             r['disagreements'].append(dict(kernel='rsing', scalars=[float(x) for x in sc], roots=[complex(z) for z in rt],
